@@ -16,6 +16,7 @@ mod c24;
 mod c27;
 mod c28;
 mod c35;
+mod c37;
 mod c42;
 mod c45;
 mod c46;
@@ -36,6 +37,7 @@ pub fn run(item: &str, repo: &str, out: &str) -> Result<String, String> {
         c27::run,
         c28::run,
         c35::run,
+        c37::run,
         c42::run,
         c45::run,
         c46::run,
